@@ -263,7 +263,13 @@ class _AnnotationStringParser(ast.NodeTransformer):
     def visit_Constant(self, node: ast.Constant) -> ast.expr:
         value = node.value
         if isinstance(value, str):
-            return ast.copy_location(self._parse_string(value), node)
+            expr = self._parse_string(value)
+            # The parsed expression takes the place of the string in the tree: give its nodes the 'parent' attribute
+            # the other nodes have (see Parentage), it decides where parentheses are needed when the expression is displayed.
+            parentage = Parentage()
+            parentage.parent = getattr(node, 'parent', None)
+            parentage.visit(expr)
+            return ast.copy_location(expr, node)
         else:
             const = self.generic_visit(node)
             assert isinstance(const, ast.Constant), const
